@@ -1,6 +1,7 @@
 """C11 — Rough TLV encoder: limits, stable sort on the little-endian tag value, section order, stored length."""
+import collections
 from .util import *  # noqa: F401,F403
-from engine.woodlint.db import Pos, as_relation, show
+from engine.woodlint.db import E, Pos, as_relation, show
 
 PROPERTY = 'C11'
 
@@ -141,6 +142,22 @@ def r11_1(cx):
             l, r = z[0].args[0].strip(), z[0].args[1].strip()
             oki = is_call(l, 'iter') and l.args[0].strip().kind == 'param' and is_call(r, 'Iterator::skip') and r.args[1].is_const_int(1) and \
                 is_call(r.args[0], 'iter') and r.args[0].strip().args[0].strip().kind == 'param' and it.has_call('enumerate')
+        # nothing else in the chain (a `.skip(1)`, `.take(n)`, `.step_by(2)`, `.rev()`, `.filter(..)` wrapped round it scans fewer pairs)
+        chain = collections.Counter(c.op.rsplit('::', 1)[-1] for c in it.walk() if c.kind == 'call')
+        extra = {k: v for k, v in chain.items() if k not in ('into_iter', 'enumerate', 'zip', 'iter', 'skip', 'windows', 'deref', 'as_slice')}
+        oki = oki and not extra and chain['skip'] == 1 and chain['zip'] == 1 and chain['enumerate'] == 1 and chain['iter'] == 2
+        w = [c for c in it.calls('windows')]
+        if not oki and not extra and chain['skip'] == 0 and chain['zip'] == 0 and chain['enumerate'] == 1 and chain['windows'] == 1 and len(w) == 1 and len(w[0].args) == 2 and w[0].args[0].strip().kind == 'param' and w[0].args[1].is_const_int(2) and okn:
+            # `for (idx, pair) in elements.windows(2).enumerate()` comparing pair[0].0 with pair[1].0
+            def _tag_of_pair(e):
+                e = e.strip()
+                if e.kind != 'proj' or e.op != 'field' or e.info.get('i') != 0:
+                    return None
+                ix = e.a.strip()
+                if ix.kind != 'proj' or ix.op != 'index' or not isinstance(ix.b, E) or ix.b.const_int() is None:
+                    return None
+                return ix.b.const_int() if any(c.pos == nx[0].pos for c in ix.a.calls('Iterator>::next')) else None
+            oki = it.has_call('enumerate') and (_tag_of_pair(rels[0][1]), _tag_of_pair(rels[0][2])) == (0, 1)
     cx.check(oki, 'sorted:all-adjacent-pairs', ns, nx[0].loc() if nx else None, 'scans elements.iter().zip(elements.iter().skip(1)).enumerate()',
              fail_detail='new_from_sorted does not compare every adjacent pair')
     okr = False
